@@ -232,6 +232,7 @@ PROPS["C06"] = dict(
     units=[
         rapid("Prop", "TestProp", 12000, 200000, timeout=dict(quick=600, thorough=3000)),
         rapid("Deep", "TestDeep", 1200, 10000, timeout=dict(quick=600, thorough=3000)),
+        rapid("Served", "TestServed", 2400, 60000, shards=(8, 16), config_toml=_NET + "cache_size = 8\n", timeout=dict(quick=600, thorough=3000)),
         fuzz("Fuzz", "FuzzRender", "180s"),
     ],
     manifest=dict(
